@@ -1360,14 +1360,19 @@ pub fn drive_heap<T: Reg + Encode + Decode>(ctx: &mut Ctx) {
 		let maxpos = b.len().min(if ctx.tier == "thorough" { 12 } else { 3 });
 		for i in 0..=maxpos {
 			for (ci, c) in counts.iter().enumerate() {
-				if ctx.tier != "thorough" && (i + ci) % 2 == 1 { continue }
+				if ctx.tier != "thorough" && (i + ci) % 2 == 1 && !(i == 0 && ci == 0) { continue }
 				let mut x = b[..i.min(b.len())].to_vec();
 				x.extend_from_slice(&hostile_compact(*c));
 				if i < b.len() { x.extend_from_slice(&b[(i + 1).min(b.len())..]); }
 				// plausible payload behind it
-				let pay = if ctx.tier == "thorough" { *g.pick(&[0usize, 0, 64, 4096, 65536]) } else { *g.pick(&[0usize, 0, 64, 2048]) };
+				// plausible payload behind the count: the element bytes that followed the original count, repeated
+				// (whole elements, so the stream stays well-formed); at least one input per type carries more than
+				// one full 16 KiB preallocation chunk
+				let pay = if i == 0 && ci == 0 { 40000 }
+					else if ctx.tier == "thorough" { *g.pick(&[0usize, 0, 64, 4096, 17000, 65536]) } else { *g.pick(&[0usize, 0, 64, 2048]) };
+				let tail: Vec<u8> = if i + 1 < b.len() { b[(i + 1)..].to_vec() } else { b.clone() };
 				let mut k = 0;
-				while x.len() < pay + i && !b.is_empty() { x.push(b[k % b.len()]); k += 1; }
+				while x.len() < pay + i && !tail.is_empty() { x.push(tail[k % tail.len()]); k += 1; }
 				inputs.push(x);
 			}
 		}
@@ -1449,5 +1454,54 @@ pub fn drive_deep<T: Reg + Decode + Send + 'static>(ctx: &mut Ctx, unit: &[u8], 
 			let rec = json!({"k":"deep","tn":tn,"levels":levels,"limit":limit,"res":res,"sig":[levels, limit]});
 			ctx.emit(&tn, rec);
 		}
+	}
+}
+
+// ------------------------------------------------------------------ C14: heterogeneous concatenations
+
+/// one part of a concatenation: encode a generated value, later decode it from the shared slice
+pub struct CatOps {
+	pub make: fn(&mut G) -> (Value, Value, Value, Vec<u8>),
+	pub take: for<'a> fn(&mut &'a [u8]) -> (String, Value),
+}
+fn cat_make<T: Reg + Encode>(g: &mut G) -> (Value, Value, Value, Vec<u8>) {
+	let v = g.nested(T::gen);
+	(T::descr(), env_of::<T>(), v.abs(), v.encode())
+}
+fn cat_take<'a, T: Reg + Decode>(s: &mut &'a [u8]) -> (String, Value) {
+	let r = guarded(|| T::decode(s));
+	res_json(&r)
+}
+pub fn cat_ops<T: Reg + Encode + Decode>() -> CatOps {
+	CatOps { make: cat_make::<T>, take: cat_take::<T> }
+}
+
+pub fn drive_cat(ctx: &mut Ctx, ops: &[CatOps]) {
+	if !ctx.wants("concat") {
+		return;
+	}
+	let mut g = ctx.rng_for("concat", 20);
+	for _ in 0..(40 * ctx.scale) {
+		let span = if g.chance(1, 8) { 49 } else { 7 };
+		let n = 2 + g.below(span);
+		let picks: Vec<usize> = (0..n).map(|_| g.below(ops.len())).collect();
+		let mut parts = vec![];
+		let mut buf: Vec<u8> = vec![];
+		for &i in &picks {
+			let (ty, e, v, out) = (ops[i].make)(&mut g);
+			buf.extend_from_slice(&out);
+			parts.push(json!({"ty": ty, "E": e, "v": v, "out": bytes_json(&out)}));
+		}
+		let mut s = &buf[..];
+		let mut steps = vec![];
+		for &i in &picks {
+			let before = s.len();
+			let (res, v) = (ops[i].take)(&mut s);
+			let ok = res == "ok";
+			steps.push(json!({"res": res, "v": v, "n": before - s.len()}));
+			if !ok { break }
+		}
+		let rec = json!({"k":"cat","tn":"concat","parts":parts,"steps":steps,"rest":bytes_json(s),"out":bytes_json(&buf[..buf.len().min(16)])});
+		ctx.emit("concat", rec);
 	}
 }
